@@ -60,7 +60,16 @@ def build_reference(ctx, rng, d):
     lookup = {k: v for k, v in lookup.items() if k not in ('metadata', 'log')}
     with open(d / 'markers.json', 'w') as f:
         json.dump(lookup, f)
-    return gt, genes, qgenes, lookup
+    # the TRUE centroids, computed here directly from the reference cells (not read back from the
+    # statistics file, which is one of the products under test)
+    tot = M.astype(np.float64).sum(axis=1, keepdims=True)
+    logcpm = np.log2(1.0 + M.astype(np.float64) * 1.0e6 / np.where(tot > 0, tot, 1.0))
+    leaf_of = obs[gt.levels[-1]]
+    truth = {}
+    for lf in leaves:
+        sel = [i for i, x in enumerate(leaf_of) if x == gt.name(lf)]
+        truth[gt.name(lf)] = logcpm[sel].mean(axis=0)
+    return gt, genes, qgenes, lookup, truth
 
 
 def run(ctx):
@@ -77,7 +86,7 @@ def run(ctx):
         d = ctx.scratch / f's{k}'
         d.mkdir()
         try:
-            gt, genes, qgenes, lookup = build_reference(ctx, rng, d)
+            gt, genes, qgenes, lookup, truth = build_reference(ctx, rng, d)
         except Exception as e:
             ctx.count(('c18', k, 'stage-failure'), nontrivial=False)
             import traceback
@@ -85,6 +94,8 @@ def run(ctx):
             cls = 'c18-stage-chain'
             if isinstance(e, UnboundLocalError) and 'this_cluster_stats' in str(e):
                 cls = 'F12-no-leaf-pair-reference-markers'
+            elif isinstance(e, ValueError) and 'chunk dimensions must be positive' in str(e) and '_merge_sparse_by_pair_files' in tb:
+                cls = 'F17-no-marker-in-one-direction-raises'
             ctx.violation(f'a stage rejected the output of the previous stage: {type(e).__name__}: {e}',
                           {'class': cls, 'error': f'{type(e).__name__}: {e}', 'traceback': tb[-1500:]})
             shutil.rmtree(d, ignore_errors=True)
@@ -95,10 +106,19 @@ def run(ctx):
             means = f['sum'][()] / np.maximum(1, f['n_cells'][()])[:, None]
         leaves = [gt.name(n) for n, _ in gt.model[-1]]
         pos = [cols.index(g) for g in qgenes]
-        Q = np.array([means[rowof[lf]][pos] for lf in leaves])
+        gpos = [genes.index(g) for g in qgenes]
+        Q = np.array([truth[lf][gpos] for lf in leaves])
+        # the statistics file must hold these centroids (C09); a difference beyond float noise is reported here too,
+        # because the property is about the TRUE mean profile
+        worst = max(float(np.max(np.abs(means[rowof[lf]][pos] - truth[lf][gpos]))) for lf in leaves)
+        if worst > 1e-4:      # the reference is float32: the stored means carry single-precision rounding (~1e-6)
+            ctx.violation(f'the statistics file does not hold the cluster centroids: max |stored mean - true mean| = {worst}',
+                          {'class': 'c18-stored-centroid-wrong', 'tree': gt.data, 'max_abs_difference': worst,
+                           'leaves': leaves})
         cell_ids = [f'centroid_{lf}' for lf in leaves]
         gen.write_h5ad(d / 'query.h5ad', Q, cell_ids, qgenes, encoding=rng.choice(['dense', 'csr']))
-        factor = rng.choice([0.25, 0.5, 0.9, 1.0])
+        factor = [1.0, 0.5, 0.9, 0.25][k % 4]          # every factor in every tier
+        rng.random()
         cfg = pipeline.config_for(d, d / 'query.h5ad', d / 'stats.h5', d / 'markers.json',
                                   bootstrap_factor=factor, bootstrap_iteration=rng.choice([3, 10]),
                                   rng_seed=rng.randrange(10 ** 6), n_processors=rng.randrange(1, 4),
